@@ -210,6 +210,13 @@ func (r ReportCodecEVMABIEncodeUnpacked) buildHeader(rf BaseReportFields) ([]byt
 	} else if rf.NativeFee.Cmp(zero) < 0 {
 		merr = errors.Join(merr, fmt.Errorf("nativeFee may not be negative (got: %s)", rf.NativeFee))
 	}
+	maxUint192 := new(big.Int).Sub(new(big.Int).Lsh(big.NewInt(1), 192), big.NewInt(1))
+	if rf.LinkFee != nil && rf.LinkFee.Cmp(maxUint192) > 0 {
+		merr = errors.Join(merr, fmt.Errorf("linkFee does not fit into uint192 (got: %s)", rf.LinkFee))
+	}
+	if rf.NativeFee != nil && rf.NativeFee.Cmp(maxUint192) > 0 {
+		merr = errors.Join(merr, fmt.Errorf("nativeFee does not fit into uint192 (got: %s)", rf.NativeFee))
+	}
 	if merr != nil {
 		return nil, merr
 	}
